@@ -104,4 +104,116 @@ func init() {
 	mutant("C04", "challenge-on-403", "C04.R5", "http_proxy_errors.go", "if code == http.StatusProxyAuthRequired {", "if code == http.StatusForbidden {")
 	mutant("C04", "localhost-case-sensitive", "C04.R7", "http_proxy.go", "\thost = strings.ToLower(host)\n\n\tif slices.Contains(hp.localhost, host) {", "\tif slices.Contains(hp.localhost, host) {")
 	mutant("C04", "aliases-not-lowercased", "C04.R7", "http_proxy.go", "\tfor i := range lh {\n\t\tlh[i] = strings.ToLower(lh[i])\n\t}\n", "")
+
+	// ---- C01
+	const hbh = "internal/martian/header/hopbyhop_modifier.go"
+	const fwd = "internal/martian/header/forwarded_modifier.go"
+	mutant("C01", "unfix-xff-first-line-only", "C01.R4,C01.R5", fwd, `strings.Join(req.Header.Values("X-Forwarded-For"), ", ")`, `strings.TrimSpace(req.Header.Get("X-Forwarded-For"))`)
+	mutant("C01", "te-forwarded", "C01.R3", hbh, "\t\"Te\",\n", "")
+	mutant("C01", "fixed-table-first", "C01.R3", hbh, "\tfor _, vs := range header[\"Connection\"] {\n\t\tfor _, v := range strings.Split(vs, \",\") {\n\t\t\tk := http.CanonicalHeaderKey(strings.TrimSpace(v))\n\t\t\theader.Del(k)\n\t\t}\n\t}\n\n\tfor _, k := range hopByHopHeaders {\n\t\theader.Del(k)\n\t}\n", "\tfor _, k := range hopByHopHeaders {\n\t\tif k != \"Connection\" {\n\t\t\theader.Del(k)\n\t\t}\n\t}\n\n\tfor _, vs := range header[\"Connection\"] {\n\t\tfor _, v := range strings.Split(vs, \",\") {\n\t\t\tk := http.CanonicalHeaderKey(strings.TrimSpace(v))\n\t\t\theader.Del(k)\n\t\t}\n\t}\n\theader.Del(\"Connection\")\n")
+	mutant("C01", "header-injected", "C01.R1", fwd, "\t\t\treq.Header.Set(\"X-Forwarded-For\", xff)\n", "\t\t\treq.Header.Set(\"X-Forwarded-For\", xff)\n\t\t\treq.Header.Set(\"X-Real-Ip\", xff)\n")
+	mutant("C01", "upgrade-readded-always", "C01.R4", pconn, "\tif reqUpType != \"\" {\n\t\treq.Header.Set(\"Connection\", \"Upgrade\")\n\t\treq.Header.Set(\"Upgrade\", reqUpType)\n\t}\n\n\t// perform the HTTP roundtrip", "\treq.Header.Set(\"Connection\", \"Upgrade\")\n\treq.Header.Set(\"Upgrade\", reqUpType)\n\n\t// perform the HTTP roundtrip")
+	mutant("C01", "user-agent-invented", "C01.R4", "http_proxy.go", "\t\treq.Header.Set(\"User-Agent\", \"\")\n", "\t\treq.Header.Set(\"User-Agent\", \"forwarder\")\n")
+	mutant("C01", "via-before-hopbyhop", "C01.R2,C18.R5", "internal/martian/httpspec/httpspec.go", "\thbhm := header.NewHopByHopModifier()\n\touter.AddRequestModifier(hbhm)\n", "\thbhm := header.NewHopByHopModifier()\n\touter.AddRequestModifier(header.NewViaModifier(via))\n\touter.AddRequestModifier(hbhm)\n").and("internal/martian/httpspec/httpspec.go", "\tvm := header.NewViaModifier(via)\n\touter.AddRequestModifier(vm)\n", "")
+	mutant("C01", "force-https-without-tls", "C01.R6", "internal/martian/proxy.go", "\t\tif req.TLS != nil && !p.AllowHTTP {", "\t\tif !p.AllowHTTP {")
+	mutant("C01", "url-host-overwritten", "C01.R4", pconn, "\tif req.URL.Host == \"\" {\n\t\treq.URL.Host = req.Host\n\t}\n", "\treq.URL.Host = req.Host\n")
+
+	// ---- C02
+	mutant("C02", "unfix-trailer-crlf", "C02.R1", pconn, "\t\tif _, err := io.WriteString(w, \"\\r\\n\"); err != nil {\n\t\t\treturn err\n\t\t}\n\t}\n\n\t// End-of-header", "\t}\n\n\t// End-of-header")
+	mutant("C02", "304-not-header-only", "C02.R2", "internal/martian/flush.go", "\t\tres.StatusCode == http.StatusNoContent ||\n\t\tres.StatusCode == http.StatusNotModified", "\t\tres.StatusCode == http.StatusNoContent")
+	mutant("C02", "chunk-http10", "C02.R2", "internal/martian/flush.go", "\tif res.ProtoMajor != 1 || res.ProtoMinor != 1 {\n\t\treturn false\n\t}\n", "\tif res.ProtoMajor != 1 {\n\t\treturn false\n\t}\n")
+	mutant("C02", "no-flush-after-write-error", "C02.R3", pconn, "\tif err != nil {\n\t\tp.brw.Flush() // flush any remaining data\n\t} else {\n\t\terr = p.brw.Flush()\n\t}\n", "\tif err == nil {\n\t\terr = p.brw.Flush()\n\t}\n")
+	mutant("C02", "close-without-header", "C02.R3", pconn, "\tif res.Close {\n\t\tres.Header.Add(\"Connection\", \"close\")\n\t}\n", "")
+	mutant("C02", "keepalive-after-close-response", "C02.R3", pconn, "\tif res.Close {\n\t\tlog.Debug(ctx, \"closing connection\")\n\t\treturn errClose\n\t}\n", "")
+	mutant("C02", "response-header-injected", "C02.R4", pconn, "\tres.Request = req\n\n\tresUpType := upgradeType(res.Header)", "\tres.Request = req\n\tres.Header.Set(\"X-Proxy\", \"forwarder\")\n\n\tresUpType := upgradeType(res.Header)")
+	mutant("C02", "sse-flush-pattern", "C02.R5", "internal/martian/flush.go", "sseFlushPattern   = [2]byte{'\\n', '\\n'}", "sseFlushPattern   = [2]byte{'\\r', '\\n'}")
+	mutant("C02", "flush-only-inside", "C02.R5", "internal/martian/flush.go", "if (w.last == w.pattern[0] && n > 0 && p[0] == w.pattern[1]) || bytes.LastIndex(p, w.pattern[:]) != -1 {", "if bytes.LastIndex(p, w.pattern[:]) != -1 {")
+
+	// ---- C03
+	mutant("C03", "bytereader-bulk", "C03.R1", "dialvia/http.go", "return r.r.Read(p[:1])", "return r.r.Read(p)")
+	mutant("C03", "reply-reader-direct", "C03.R1", "dialvia/http.go", "pbr := bufio.NewReaderSize(byteReader{conn}, 128)", "pbr := bufio.NewReaderSize(conn, 128)")
+	mutant("C03", "copy-before-drain", "C03.R2", pconn, "\tif err := drainBuffer(crw, p.brw.Reader); err != nil {\n\t\terr := fmt.Errorf(\"got error while draining read buffer: %w\", err)\n\t\tp.traceWroteResponse(res, err)\n\t\treturn err\n\t}\n\n\tctx := res.Request.Context()\n", "\tctx := res.Request.Context()\n")
+	mutant("C03", "no-half-close", "C03.R3", "internal/martian/copy.go", "\tc.closeWriter(ctx)\n\n\tlog.Debug(ctx, \"tunnel finished copying\", \"name\", c.name)", "\tlog.Debug(ctx, \"tunnel finished copying\", \"name\", c.name)")
+	mutant("C03", "wait-first-only", "C03.R3", "internal/martian/copy.go", "\tfor i := range cc {\n\t\t<-donec\n\t\tif i == 0 {", "\tfor i := range cc[:1] {\n\t\t<-donec\n\t\tif i == 0 {")
+	mutant("C03", "drain-consumes", "C03.R2", "internal/martian/copy.go", "\t\trbuf, err := r.Peek(n)\n\t\tif err != nil {\n\t\t\treturn err\n\t\t}\n\t\tw.Write(rbuf)", "\t\trbuf, err := r.Peek(n - 1)\n\t\tif err != nil {\n\t\t\treturn err\n\t\t}\n\t\tw.Write(rbuf)")
+
+	// ---- C05
+	mutant("C05", "unfix-pac-socks", "C05.R3", "http_proxy.go", "\tswitch p.Mode {\n\tcase pac.SOCKS, pac.SOCKS4:\n\t\treturn nil, fmt.Errorf(\"unsupported PAC proxy type %s\", p.Mode)\n\t}\n", "")
+	mutant("C05", "pac-over-static", "C05.R1", "http_proxy.go", "\tcase hp.config.UpstreamProxy != nil:\n\t\tu := hp.upstreamProxyURL()\n\t\thp.log.Info(\"using upstream proxy\", \"url\", u.Redacted())\n\t\thp.proxyFunc = http.ProxyURL(u)\n\tcase hp.pac != nil:\n\t\thp.log.Info(\"using PAC proxy\")\n\t\thp.proxyFunc = hp.pacProxy\n", "\tcase hp.pac != nil:\n\t\thp.log.Info(\"using PAC proxy\")\n\t\thp.proxyFunc = hp.pacProxy\n\tcase hp.config.UpstreamProxy != nil:\n\t\tu := hp.upstreamProxyURL()\n\t\thp.log.Info(\"using upstream proxy\", \"url\", u.Redacted())\n\t\thp.proxyFunc = http.ProxyURL(u)\n")
+	mutant("C05", "direct-domains-dropped-for-connect", "C05.R1", "http_proxy.go", "\thp.proxy.ProxyURL = hp.proxyFunc\n", "\thp.proxy.ProxyURL = hp.config.UpstreamProxyFunc\n")
+	mutant("C05", "pac-error-means-direct", "C05.R4", "http_proxy.go", "\ts, err := hp.pac.FindProxyForURL(r.URL, \"\")\n\tif err != nil {\n\t\treturn nil, err\n\t}\n", "\ts, err := hp.pac.FindProxyForURL(r.URL, \"\")\n\tif err != nil {\n\t\treturn nil, nil\n\t}\n")
+	mutant("C05", "pac-last-entry", "C05.R4", "pac/proxy.go", "\tspec, _, _ := strings.Cut(string(s), \";\")\n", "\t_, spec, found := strings.Cut(string(s), \";\")\n\tif !found {\n\t\tspec = string(s)\n\t}\n")
+	mutant("C05", "redirect-after-dial", "C05.R5", "net.go", "\tif d.rd != nil {\n\t\tnetwork, address = d.rd(network, address)\n\t}\n\tconn, err := d.dialContext(ctx, network, address)\n", "\tconn, err := d.dialContext(ctx, network, address)\n\tif d.rd != nil {\n\t\tnetwork, address = d.rd(network, address)\n\t}\n")
+	mutant("C05", "transport-keeps-own-proxy", "C05.R2", "internal/martian/proxy.go", "\t\t\t} else {\n\t\t\t\tt.Proxy = p.ProxyURL\n\t\t\t}\n", "\t\t\t}\n")
+
+	// ---- C06
+	mutant("C06", "proxy-authorization-forwarded", "C06.R1,C01.R3", hbh, "\t\"Proxy-Authorization\",\n", "")
+	mutant("C06", "override-client-authorization", "C06.R3", "http_proxy.go", "\tif req.Header.Get(\"Authorization\") == \"\" {\n\t\tif u := hp.creds.MatchURL(req.URL); u != nil {", "\t{\n\t\tif u := hp.creds.MatchURL(req.URL); u != nil {")
+	mutant("C06", "host-wildcard-before-port", "C06.R4", "credentials.go", "\tif u, ok := m.port[port]; ok {\n\t\tm.log.Debug(\"host=*\", \"port\", port)\n\t\treturn u\n\t}\n\n\t// Port wildcard - check the host only.\n\tif u, ok := m.host[host]; ok {\n\t\tm.log.Debug(\"port=*\", \"host\", host)\n\t\treturn u\n\t}\n", "\tif u, ok := m.host[host]; ok {\n\t\tm.log.Debug(\"port=*\", \"host\", host)\n\t\treturn u\n\t}\n\n\tif u, ok := m.port[port]; ok {\n\t\tm.log.Debug(\"host=*\", \"port\", port)\n\t\treturn u\n\t}\n")
+	mutant("C06", "https-default-port-80", "C06.R4", "credentials.go", "\t\thttpsPort = 443\n", "\t\thttpsPort = 80\n")
+	mutant("C06", "table-overrides-url-credentials", "C06.R5", "http_proxy.go", "\tif proxyURL.User == nil {\n\t\tif u := hp.creds.MatchURL(proxyURL); u != nil {\n\t\t\tproxyURL.User = u\n\t\t}\n\t}\n", "\tif u := hp.creds.MatchURL(proxyURL); u != nil {\n\t\tproxyURL.User = u\n\t}\n")
+	mutant("C06", "stray-credential-writer", "C06.R2", fwd, "\t\t\treq.Header.Set(\"X-Forwarded-For\", xff)\n", "\t\t\treq.Header.Set(\"X-Forwarded-For\", xff)\n\t\t\tif v := req.Header.Get(\"X-Upstream-Auth\"); v != \"\" {\n\t\t\t\treq.Header.Set(\"Proxy-Authorization\", v)\n\t\t\t}\n")
+
+	// ---- C07
+	const mitmgo = "internal/martian/mitm/mitm.go"
+	mutant("C07", "cache-key-with-port", "C07.R2", mitmgo, "\ttlsc, ok := c.certs.Get(hostname)\n", "\ttlsc, ok := c.certs.Get(host)\n")
+	mutant("C07", "hit-not-verified", "C07.R3", mitmgo, "\t\t}); err == nil {\n\t\t\treturn tlsc, nil\n\t\t}\n", "\t\t}); err == nil || time.Now().Before(tlsc.Leaf.NotAfter) {\n\t\t\treturn tlsc, nil\n\t\t}\n")
+	mutant("C07", "not-before-in-future", "C07.R4", mitmgo, "NotBefore:             time.Now().Add(-c.validity),", "NotBefore:             time.Now().Add(c.validity),")
+	mutant("C07", "sni-ignored", "C07.R1", mitmgo, "\t\t\thost := clientHello.ServerName\n\t\t\tif host == \"\" {\n\t\t\t\thost = hostname\n\t\t\t}\n", "\t\t\thost := hostname\n")
+	mutant("C07", "mitm-filter-on-host-with-port", "C07.R5", "http_proxy.go", "return hp.config.MITMDomains.Match(req.URL.Hostname())", "return hp.config.MITMDomains.Match(req.URL.Host)")
+	mutant("C07", "h2-skip-verify", "C07.R6", "internal/martian/h2/h2.go", "\t\tMinVersion: tls.VersionTLS12,\n\t\tRootCAs:    c.RootCAs,", "\t\tMinVersion:         tls.VersionTLS12,\n\t\tInsecureSkipVerify: c.RootCAs == nil,\n\t\tRootCAs:            c.RootCAs,")
+
+	// ---- C11
+	const proxygo = "internal/martian/proxy.go"
+	mutant("C11", "decrement-under-lock", "C11.R1", proxygo, "\tdefer func() {\n\t\tp.connsMu.Lock()\n\t\tdelete(p.conns, conn)\n\t\tp.connsMu.Unlock()\n\t}()\n\tdefer p.connsWg.Add(-1)\n", "\tdefer func() {\n\t\tp.connsMu.Lock()\n\t\tdelete(p.conns, conn)\n\t\tp.connsWg.Add(-1)\n\t\tp.connsMu.Unlock()\n\t}()\n")
+	mutant("C11", "serve-ignores-closing", "C11.R2", proxygo, "\t\tif p.closing() {\n\t\t\treturn nil\n\t\t}\n\n\t\tconn, err := l.Accept()", "\t\tconn, err := l.Accept()")
+	mutant("C11", "fresh-conn-served-during-shutdown", "C11.R2", proxygo, "\tdefer conn.Close()\n\tif p.closing() {\n\t\treturn\n\t}\n", "\tdefer conn.Close()\n")
+	mutant("C11", "shutdown-success-on-timeout", "C11.R4", proxygo, "\t\tcase <-ctx.Done():\n\t\t\treturn ctx.Err()\n\t\tcase <-timer.C:", "\t\tcase <-ctx.Done():\n\t\t\treturn nil\n\t\tcase <-timer.C:")
+	mutant("C11", "close-without-once", "C11.R4", proxygo, "\tp.closeOnce.Do(func() {\n\t\tclose(p.closeCh)\n\t})\n\n\tvar err error\n\tfor conn := range p.conns {", "\tclose(p.closeCh)\n\n\tvar err error\n\tfor conn := range p.conns {")
+	mutant("C11", "drain-before-listeners-closed", "C11.R5", "http_proxy.go", "\t\t// Close listeners first to prevent new connections.\n\t\tif err := hp.Close(); err != nil {\n\t\t\thp.log.Debug(\"failed to close listeners\", \"error\", err)\n\t\t}\n\n\t\tctx, cancel := shutdownContext(hp.config.shutdownConfig)\n\t\tdefer cancel()\n", "\t\tctx, cancel := shutdownContext(hp.config.shutdownConfig)\n\t\tdefer cancel()\n\t\tdefer hp.Close()\n")
+
+	// ---- C12
+	mutant("C12", "timeout-maps-to-502", "C12.R2", "http_proxy_errors.go", "\t\t\tcode = http.StatusGatewayTimeout\n", "\t\t\tcode = http.StatusBadGateway\n")
+	mutant("C12", "error-body-length-wrong", "C12.R2", "http_proxy_errors.go", "\tresp.ContentLength = int64(body.Len())\n", "\tresp.ContentLength = int64(len(msg))\n")
+	mutant("C12", "roundtrip-error-drops-connection-silently", "C12.R1", pconn, "\t\t\tlog.Error(ctx, \"failed to round trip\", \"host\", req.Host, \"method\", req.Method, \"path\", req.URL.Path, \"error\", err)\n\t\t}\n\t\treturn p.writeErrorResponse(req, err)", "\t\t\tlog.Error(ctx, \"failed to round trip\", \"host\", req.Host, \"method\", req.Method, \"path\", req.URL.Path, \"error\", err)\n\t\t}\n\t\treturn nil")
+	mutant("C12", "error-loop-unbounded", "C12.R4", proxygo, "\t\t\terrorsN++\n", "")
+	mutant("C12", "upstream-rejection-masked", "C12.R2", pconn, "\tres := maybeConnectErrorResponse(err)\n\tvar proxyAuthenticate []string\n\tif res == nil {\n\t\tres = p.errorResponse(req, err)", "\tres := maybeConnectErrorResponse(err)\n\tvar proxyAuthenticate []string\n\tif true {\n\t\tres = p.errorResponse(req, err)")
+
+	// ---- C14
+	mutant("C14", "resolver-not-returned-on-error", "C14.R1", "pac/pool.go", "\tp, err = pr.FindProxyForURL(u, hostname)\n\tpool.pool.Put(pr)\n\treturn", "\tp, err = pr.FindProxyForURL(u, hostname)\n\tif err != nil {\n\t\treturn\n\t}\n\tpool.pool.Put(pr)\n\treturn")
+	mutant("C14", "non-ascii-accepted", "C14.R3", "pac/pac.go", "\tif !utf8string.NewString(s).IsASCII() {\n\t\treturn \"\", fmt.Errorf(\"PAC script: non-ASCII characters in the return value %q\", s)\n\t}\n", "\t_ = utf8string.NewString\n")
+	mutant("C14", "both-entry-points-accepted", "C14.R3", "pac/pac.go", "\tif fnx != nil && fn != nil {\n\t\treturn nil, errors.New(\"PAC script: ambiguous entry point, both FindProxyForURL and FindProxyForURLEx are defined\")\n\t}\n", "")
+	mutant("C14", "helper-misbound", "C14.R2", "pac/pac.go", "{\"dnsResolveEx\", pr.dnsResolveEx},", "{\"dnsResolveEx\", pr.dnsResolve},")
+	mutant("C14", "https-keyword-http", "C14.R4", "pac/proxy.go", "\tcase \"HTTPS\":\n\t\treturn HTTPS\n", "\tcase \"HTTPS\":\n\t\treturn HTTP\n")
+
+	// ---- C15
+	mutant("C15", "unfix-remoteaddr-in-accept-loop", "C15.R1", proxygo, "\t\tdelay = 0\n\n\t\tgo p.handleLoop(conn)", "\t\tdelay = 0\n\t\tlog.Debug(context.TODO(), \"accepted connection\", \"address\", conn.RemoteAddr().String())\n\n\t\tgo p.handleLoop(conn)")
+	mutant("C15", "handshake-in-accept", "C15.R1", "net.go", "\tif l.TLSConfig != nil {\n\t\tconn = tls.Server(conn, l.TLSConfig)\n\t}\n\n\treturn conn, nil", "\tif l.TLSConfig != nil {\n\t\ttc := tls.Server(conn, l.TLSConfig)\n\t\tif err := tc.Handshake(); err != nil {\n\t\t\treturn nil, err\n\t\t}\n\t\tconn = tc\n\t}\n\n\treturn conn, nil")
+	mutant("C15", "header-deadline-uses-idle", "C15.R2", pconn, "\tif d := p.readHeaderTimeout(); d > 0 {\n\t\thdrDeadline = t0.Add(d)\n\t}", "\tif d := p.idleTimeout(); d > 0 {\n\t\thdrDeadline = t0.Add(d)\n\t}")
+	mutant("C15", "no-idle-deadline", "C15.R2", pconn, "\tif deadlineErr := p.conn.SetReadDeadline(idleDeadline); deadlineErr != nil {\n\t\tlog.Error(context.TODO(), \"can't set idle deadline\", \"error\", deadlineErr)\n\t}\n\n", "\t_ = idleDeadline\n\n").and(pconn, "\tif _, err := p.brw.Peek(1); err != nil {\n\t\treturn nil, err\n\t}\n", "\tif _, err := p.brw.Peek(1); err != nil {\n\t\treturn nil, err\n\t}\n\tif deadlineErr := p.conn.SetReadDeadline(time.Time{}); deadlineErr != nil {\n\t\tlog.Error(context.TODO(), \"can't set idle deadline\", \"error\", deadlineErr)\n\t}\n")
+	mutant("C15", "mitm-handshake-unbounded", "C15.R3", pconn, "\t\tif p.MITMTLSHandshakeTimeout > 0 {\n\t\t\tvar hcancel context.CancelFunc\n\t\t\thctx, hcancel = context.WithTimeout(ctx, p.MITMTLSHandshakeTimeout)\n\t\t\tdefer hcancel()\n\t\t} else {\n\t\t\thctx = ctx\n\t\t}", "\t\thctx = ctx")
+	mutant("C15", "timeouts-swapped", "C15.R4", "http_proxy.go", "\thp.proxy.ReadTimeout = hp.config.ReadTimeout\n\thp.proxy.ReadHeaderTimeout = hp.config.ReadHeaderTimeout\n", "\thp.proxy.ReadTimeout = hp.config.ReadHeaderTimeout\n\thp.proxy.ReadHeaderTimeout = hp.config.ReadTimeout\n")
+
+	// ---- C18
+	const viago = "internal/martian/header/via_modifier.go"
+	mutant("C18", "unfix-via-first-line-only", "C18.R1,C18.R2", viago, `via := strings.Join(req.Header.Values("Via"), ", ")`, `via := req.Header.Get("Via")`)
+	mutant("C18", "loop-answers-502", "C18.R1", viago, "\t\t\t\tStatus: 400,", "\t\t\t\tStatus: 502,")
+	mutant("C18", "via-written-before-check", "C18.R1", viago, "\t\tif strings.Contains(via, m.tag) {\n\t\t\treq.Close = true", "\t\tif strings.Contains(via, m.tag) {\n\t\t\treq.Header.Set(\"Via\", via+\", \"+m.tag)\n\t\t\treq.Close = true")
+	mutant("C18", "fixed-boundary", "C18.R3", viago, "\treturn NewViaModifierWithBoundary(requestedBy, randomBoundary())", "\treturn NewViaModifierWithBoundary(requestedBy, \"0000000000\")")
+	mutant("C18", "via-skipped-for-connect", "C18.R5", viago, "\t// Via is a list field, it may be split into multiple field lines.\n", "\tif req.Method == http.MethodConnect {\n\t\treturn nil\n\t}\n\t// Via is a list field, it may be split into multiple field lines.\n")
+	mutant("C18", "version-hardcoded", "C18.R1", viago, "\tcase 10:\n\t\tsb.WriteString(h10Prefix)", "\tcase 10:\n\t\tsb.WriteString(h11Prefix)")
+
+	// ---- C19
+	mutant("C19", "unfix-key-logged", "C19.R4", "http_proxy.go", "\"key\", redactFileOrBase64(hp.config.KeyFile))", "\"key\", hp.config.KeyFile)")
+	mutant("C19", "proxy-flag-unredacted", "C19.R1", "bind/flag.go", "anyflag.NewValueWithRedact[*url.URL](cfg.UpstreamProxy, &cfg.UpstreamProxy, forwarder.ParseProxyURL, RedactURL)", "anyflag.NewValue[*url.URL](cfg.UpstreamProxy, &cfg.UpstreamProxy, forwarder.ParseProxyURL)")
+	mutant("C19", "redact-userinfo-leaks", "C19.R2", "bind/redact.go", "\tif _, has := ui.Password(); has {\n\t\treturn ui.Username() + \":xxxxx\"\n\t}", "\tif p, has := ui.Password(); has {\n\t\treturn ui.Username() + \":\" + p[:1] + \"xxxx\"\n\t}")
+	mutant("C19", "proxy-url-logged-unredacted", "C19.R4", "http_proxy.go", "hp.log.Info(\"using upstream proxy\", \"url\", u.Redacted())", "hp.log.Info(\"using upstream proxy\", \"url\", u)")
+	mutant("C19", "unredacted-dump", "C19.R3", "utils/cobrautil/describe.go", "\t\tif d.Unredacted {\n\t\t\tif v, ok := f.Value.(redactedValue); ok {\n\t\t\t\tval = v.Unredacted()\n\t\t\t}\n\t\t}\n", "\t\tif v, ok := f.Value.(redactedValue); ok && (d.Unredacted || d.ShowHidden) {\n\t\t\tval = v.Unredacted()\n\t\t}\n")
+
+	// ---- C20
+	mutant("C20", "limits-swapped-at-listen", "C20.R1", "net.go", "ll = ratelimit.NewListener(ll, int64(rl), int64(wl))", "ll = ratelimit.NewListener(ll, int64(wl), int64(rl))")
+	mutant("C20", "read-uses-tx-limiter", "C20.R1", "ratelimit/conn.go", "\tif n > 0 && c.rxLimiter != nil {\n\t\tc.rxLimiter.WaitN(waitContext, n)\n\t}", "\tif n > 0 && c.txLimiter != nil {\n\t\tc.txLimiter.WaitN(waitContext, n)\n\t}")
+	mutant("C20", "limiter-per-connection", "C20.R3", "ratelimit/listener.go", "\t\trxLimiter: l.rxLimiter,\n\t\ttxLimiter: l.txLimiter,\n\t}, c, connfu.Config{})", "\t\trxLimiter: cloneLimiter(l.rxLimiter),\n\t\ttxLimiter: cloneLimiter(l.txLimiter),\n\t}, c, connfu.Config{})").and("ratelimit/ratelimit.go", "func newRateLimiter(bandwidth int64) *rate.Limiter {", "func cloneLimiter(l *rate.Limiter) *rate.Limiter {\n\tif l == nil {\n\t\treturn nil\n\t}\n\treturn rate.NewLimiter(l.Limit(), l.Burst())\n}\n\nfunc newRateLimiter(bandwidth int64) *rate.Limiter {")
+	mutant("C20", "zero-limit-throttles", "C20.R1,C20.R2", "ratelimit/listener.go", "\tif readLimit > 0 {\n\t\ttxLimiter = newRateLimiter(readLimit)\n\t}", "\tif readLimit >= 0 {\n\t\ttxLimiter = newRateLimiter(readLimit)\n\t}")
+	mutant("C20", "wait-for-buffer-size", "C20.R2", "ratelimit/conn.go", "\t\tc.txLimiter.WaitN(waitContext, n)", "\t\tc.txLimiter.WaitN(waitContext, len(b))")
 }
